@@ -539,10 +539,13 @@ class Calls:
         for ci, idx in enumerate(choices):
             s2 = st.clone() if ci < len(choices) - 1 else st
             vals = [z3.IntVal(idx), z3.Const(fresh_name("recvok"), z3.BoolSort())]
+            received = []
             for j, (d, ch, s) in enumerate(chans):
                 if d == "recv":
                     et = self.ir.types[self.ir.under(ch.t)]["elem"]
                     vals.append(s2.fresh(et, "recv") if j == idx else s2.zero(et))
+                    if j == idx:
+                        received = [vals[-1]]
             if idx >= 0:
                 d, ch, s = chans[idx]
                 if not z3.is_false(to_bool(ch.nil)):
@@ -550,7 +553,7 @@ class Calls:
                     if not s2.feasible():
                         continue
                 sent = [self.operand(fr, st, s["send"])] if d == "send" else []
-                s2.log("select-" + d, [ch] + sent, [], ins.get("pos"), "chan")
+                s2.log("select-" + d, [ch] + sent, received if d == "recv" else [], ins.get("pos"), "chan")     # the received value is $r0 of a select-recv entry
                 if d == "recv" and is_z3(ch.ref) and z3.is_app(ch.ref) and ch.ref.decl().name() == "ctx.Done":
                     # a context whose Done channel delivered has a non-nil Err (context package contract)
                     s2.assume(uf("ctx.Err", [Ref], Ref)(ch.ref.arg(0)) != NIL)
